@@ -144,7 +144,7 @@ func (c *ctx) caseTok(kind byte, cf cfg, value []byte, tag string) {
 	c.ch.Add(req, impl, nt, "kind="+string(kind), "gen="+tag, "cs="+vh.B(cf.cs), "partial="+vh.B(cf.partial))
 }
 
-var alphabet = []string{"a", "B", "z", "_", "*", " ", "/", "-", "é", "É", "İ", "K", "ǅ", "日", "\xff", "\xc3", "0", "ß", "ẞ", "ſ"}
+var alphabet = []string{"a", "B", "z", "_", "*", " ", "/", "-", "é", "É", "İ", "K", "ǅ", "日", "\xff", "\xc3", "0", "ß", "ẞ", "ſ", "\r", "\n", "\\", "\"", "'"}
 
 var words = []string{"a", "Error", "payment-api", "x1", "Ünïcode", "日本語", "Kelvin", "İstanbul", "ǅ", "straße", "ẞ", "ΑΒΓ", "_id", "a*b", "1e3", "UPPER", "MiXed", "ÀÉÎ",
 	"\xffbad", "tr\xc3", "é", "٣", "Ⅻ", "²"}
@@ -158,7 +158,7 @@ func randValue(r *vh.RNG) []byte {
 			sb.WriteString(words[r.Intn(len(words))])
 		}
 		if n > 0 {
-			sb.WriteString([]string{" ", "/", "-", ":", ".", "  ", "\t", "//", "—", ""}[r.Intn(10)])
+			sb.WriteString([]string{" ", "/", "-", ":", ".", "  ", "\t", "//", "—", "", "\r\n", "\r", "\\", "'", "\""}[r.Intn(15)])
 		}
 	}
 	return sb.Bytes()
